@@ -7,6 +7,7 @@ typedef struct {
     char   name[80];
     int32  nt, rank, dims[XMAXRANK];
     int    nelem, sz, nbytes, ref, iscoord, unlimited;
+    int    noraw;    /* set by a reader that has already reported this variable's data element under a root-cause key: the raw views skip it */
     int    unwritten, appended, sdd_dim0; /* never written (SD shows fill values) | records appended in a 2nd session | dims[0] when the NDG was written */
     uint8_t data[XMAXBYTES];
     char   label[40], unit[40], format[40], coordsys[40];
@@ -78,7 +79,7 @@ static void check_ndg_raw(const char *path, const XVar *v, const char *pair, con
         else { snprintf(key, sizeof key, "%s:sdd-len", pair); hk_fail(key, "SDD %d length %d rank %d", sddref, (int)len, (int)v->rank); }
     }
     else { snprintf(key, sizeof key, "%s:no-sdd", pair); hk_fail(key, "NDG %d has no SDD", v->ref); }
-    if (sdref && v->nbytes > 0) {
+    if (sdref && v->nbytes > 0 && !v->noraw) {
         uint8_t raw[XMAXBYTES], want[XMAXBYTES];
         int16 special = 0; int32 aid = Hstartread(fid, DFTAG_SD, sdref);
         if (aid != FAIL) { Hinquire(aid, 0, 0, 0, 0, 0, 0, 0, &special); Hendaccess(aid); }
@@ -274,7 +275,8 @@ static void vgroup_view_sd(const char *path)
                 hk_fail("xapi-sd-vg:nt", "DFTAG_NT %d of %s does not describe type %d", ntref, v->name, (int)v->nt);
         }
         else hk_fail("xapi-sd-vg:nt", "Vgroup %s has no DFTAG_NT member", v->name);
-        if (v->unwritten) { if (sdref) hk_fail("xapi-sd-vg:data", "never written %s has a DFTAG_SD member", v->name); }
+        if (v->noraw) ;
+        else if (v->unwritten) { if (sdref) hk_fail("xapi-sd-vg:data", "never written %s has a DFTAG_SD member", v->name); }
         else if (sdref && v->nbytes > 0 && !v->unlimited) {
             uint8_t raw[XMAXBYTES], want[XMAXBYTES];
             int32 g = Hgetelement(fid, DFTAG_SD, (uint16)sdref, raw);
